@@ -80,6 +80,7 @@ type loopInfo struct {
 	body    map[*ssa.BasicBlock]bool
 	invs    []*Clause
 	decs    []*Clause
+	mods    []*Clause
 	decVals []T
 	env0    *State
 }
@@ -262,6 +263,9 @@ func (fr *Frame) run(st *State, pc T) {
 				}
 				if c.Kind == "loopdec" && c.Loop == li.num {
 					li.decs = append(li.decs, c)
+				}
+				if c.Kind == "loopmod" && c.Loop == li.num {
+					li.mods = append(li.mods, c)
 				}
 			}
 		}
@@ -722,7 +726,16 @@ func (fr *Frame) assumeAlive(st *State, pc T, v Val) {
 	if v.Typ == nil || len(v.Ts) == 0 {
 		return
 	}
-	switch v.Typ.Underlying().(type) {
+	switch ut := v.Typ.Underlying().(type) {
+	case *types.Struct:
+		off := 0
+		for i := 0; i < ut.NumFields(); i++ {
+			n := len(vc.E.leavesOf(ut.Field(i).Type()))
+			if off+n <= len(v.Ts) {
+				fr.assumeAlive(st, pc, Val{Typ: ut.Field(i).Type(), Ts: v.Ts[off : off+n]})
+			}
+			off += n
+		}
 	case *types.Pointer, *types.Map, *types.Chan:
 		r := v.Ts[0]
 		if strings.HasPrefix(r, "(_ bv") {
